@@ -6,6 +6,11 @@ leaf) in lock-step with a list-of-bits model.  States are deduplicated by their 
 (bit tuple + memory-layout flags of `.data`).  Plus: exhaustive leaf constructions (every word of
 length 0..12 in every container form), tables of invalid constructions / operands, long words,
 and the threshold comparison of electrical_signal (`>`/`<`).
+
+Hardening pass: extended container / dtype forms of every word (XSEQ_FORMS ...), inputs classified valid / bad / free,
+every integer index and slice (`index_case`), never-queried operands (`cold_case`), len/ones/zeros re-asked after the ops in
+a rotating order, operands derived from the same object, scaled / offset / extreme comparison classes, a signal container /
+dtype axis (`SIG_FORMS`), threshold dtypes, global-grid histories (`gv_case`).  See notes/C15.md "Hardening pass".
 """
 from __future__ import annotations
 import itertools
